@@ -185,6 +185,9 @@ struct SimNode {
     peer_id: iroh::PublicKey,
     /// local writes acknowledged by this node
     acked: Vec<Ent>,
+    /// `acked[crash_mark..]` were acknowledged after this node's last unclean crash: no fault can
+    /// have taken them away
+    crash_mark: usize,
     dirty_crashes: u32,
 }
 
@@ -261,7 +264,7 @@ async fn boot(i: u8, clock: u64, image: Option<Vec<u8>>, read_only: bool) -> Res
     let (txe, rxe) = async_channel::bounded::<Event>(4096);
     let peer_id = iroh::SecretKey::from_bytes(&[0xC0 + i; 32]).public();
     node.handle.open(ns, OpenOpts::default().sync().subscribe(txe)).await.map_err(|e| harness(format!("node {i} open: {e:#}")))?;
-    Ok(SimNode { node: Some(node), disk, clock, events: rxe, peer_id, acked: vec![], dirty_crashes: 0 })
+    Ok(SimNode { node: Some(node), disk, clock, events: rxe, peer_id, acked: vec![], crash_mark: 0, dirty_crashes: 0 })
 }
 
 fn start_session(nodes: &[SimNode], a: u8, b: u8) -> Option<Sess> {
@@ -561,6 +564,7 @@ async fn run(plan: &SwarmPlan, cx: &mut Cx, big_skew: bool) -> Res {
                 };
                 let mut fresh = boot(i as u8, nodes[i].clock, Some(image), (plan.read_only >> i) & 1 == 1).await?;
                 fresh.acked = std::mem::take(&mut nodes[i].acked);
+                fresh.crash_mark = if matches!(*kind, 1 | 2) { fresh.acked.len() } else { nodes[i].crash_mark };
                 fresh.dirty_crashes = nodes[i].dirty_crashes;
                 fresh.peer_id = nodes[i].peer_id;
                 nodes[i] = fresh;
@@ -605,6 +609,8 @@ async fn run(plan: &SwarmPlan, cx: &mut Cx, big_skew: bool) -> Res {
         let img = nodes[i].disk.image();
         let mut fresh = boot(i as u8, nodes[i].clock, Some(img), (plan.read_only >> i) & 1 == 1).await?;
         fresh.acked = std::mem::take(&mut nodes[i].acked);
+        fresh.crash_mark = nodes[i].crash_mark;
+        fresh.dirty_crashes = nodes[i].dirty_crashes;
         fresh.peer_id = nodes[i].peer_id;
         nodes[i] = fresh;
     }
@@ -683,6 +689,19 @@ async fn run(plan: &SwarmPlan, cx: &mut Cx, big_skew: bool) -> Res {
         let want = RefDoc::join(all.iter());
         if finals[0] != want {
             return Err(Violation::new("not-join/acknowledged-writes", format!("no node crashed, yet the final state {} is not the merge of all acknowledged local writes {}", finals[0].short(), want.short())));
+        }
+    }
+    if any_dirty {
+        // a crash may take away what its node had acknowledged before it and not yet made
+        // durable or passed on - nothing else: every write acknowledged by a node after its last
+        // unclean crash (or by a node that never crashed) must be accounted for in the final state
+        let safe: Vec<Ent> = nodes.iter().flat_map(|nd| nd.acked[nd.crash_mark.min(nd.acked.len())..].iter().cloned()).collect();
+        if !safe.is_empty() {
+            cx.probe("writes_acknowledged_after_the_last_crash_checked");
+        }
+        let with: RefDoc = RefDoc::join(finals[0].entries().chain(safe.iter()));
+        if with != finals[0] {
+            return Err(Violation::new("not-join/acknowledged-writes-after-last-crash", format!("the final state {} lacks writes that were acknowledged by nodes after their last unclean crash; with them the merge is {}", finals[0].short(), with.short())));
         }
     }
     cx.state(crate::rng::fnv(finals[0].short().as_bytes()));
